@@ -37,6 +37,7 @@ PROFILES: List[Tuple[str, float, Dict[str, Any]]] = [
     ('layers',    6, dict(reexport=0.9, roots=(2, 3), consumer_roots=True, children=(4, 7), subpkg=0.2, defs=(1, 3), imports=(2, 3), star=0.05,
                           nested=0.0, own_all=0.0, alias=0.05, max_modules=10, prefer_local=0.8)),
     ('nested-refs', 2, dict(reexport=0.5, roots=(1, 3), nested=0.7, nested_refs=0.8, alias=0.3)),
+    ('docformat', 1, dict(reexport=0.3, roots=(1, 2), fields=0.8, pkg_docformat=1.0, consumer_roots=True)),
     ('multi',     1, dict(reexport=0.7, multi_reexport=True, roots=(1, 3))),
     ('zope',      1, dict(reexport=0.3, zope=1.0, roots=(1, 2))),
     ('docassign', 3, dict(reexport=0.3, docassign=0.7, docassign_modules=True, roots=(1, 2))),
